@@ -18,7 +18,7 @@ COMPONENTS = c03.COMPONENTS
 ASSUMPTIONS = ["both runs use hio's real scheduler; the reference model is used only to classify a mismatch as finding F5"]
 PROBES = ["depth2_grouping", "limit_forced_exit_compared", "group_completes_before_run_ends"]
 BOUNDS = dict(quick=dict(leaves=8, depth=3, steps=7), thorough=dict(leaves=12, depth=3, steps=12))
-TIERS = dict(quick=dict(cases=16000, wall=40.0), thorough=dict(cases=900000, wall=420.0))
+TIERS = dict(quick=dict(cases=30000, wall=60.0), thorough=dict(cases=900000, wall=420.0))
 
 
 def regroup(tape, prog, maxdepth=3):
